@@ -97,6 +97,52 @@ theorem Laws_kindFree (k1 k2 : Kind) (s : K) (cs : List (Cpt K)) (h : ∀ c ∈ 
   · rintro ⟨a, b⟩; exact ⟨a, fun c hc p hp => b c hc p (by rwa [laws_kindFree k1 k2 s x c (h c hc)])⟩
   · rintro ⟨a, b⟩; exact ⟨a, fun c hc p hp => b c hc p (by rwa [← laws_kindFree k1 k2 s x c (h c hc)])⟩
 
+/-- the component carries no initial condition (absent, not merely zero) -/
+def Cpt.noIC : Cpt K → Bool
+  | .Cap _ _ _ v0 => v0.isNone
+  | .Ind _ _ _ _ i0 coup => i0.isNone && coup.all (fun p => p.2.2.isNone)
+  | _ => true
+
+theorem mutualIC_none (coup : List (Nat × K × Option K)) (h : coup.all (fun p => p.2.2.isNone) = true) :
+    mutualIC coup = 0 := by
+  induction coup with
+  | nil => rfl
+  | cons p t ih =>
+    simp only [List.all_cons, Bool.and_eq_true] at h
+    obtain ⟨a, b, c⟩ := p
+    cases c with
+    | some _ => simp at h
+    | none =>
+      simp only [mutualIC, List.map_cons, lsum, icFlux, zero_add] at ih ⊢
+      exact ih h.2
+
+/-- without initial conditions the initial-value analysis IS the zero-state Laplace analysis (phasor analysis at s = jω) -/
+theorem Laws_lap_ivp_noIC (s : K) (cs : List (Cpt K)) (h : ∀ c ∈ cs, c.noIC = true) (x : Ix → K) :
+    Laws .lap s cs x ↔ Laws .ivp s cs x := by
+  have ho : ∀ c ∈ cs, ∀ k, outflow .lap s x k c = outflow .ivp s x k c := by
+    intro c hc k
+    have := h c hc
+    cases c <;> try rfl
+    case Cap n1 n2 cc v0 =>
+      cases v0 with
+      | some _ => simp [Cpt.noIC] at this
+      | none => simp [outflow, capCurrent]
+  have hl : ∀ c ∈ cs, laws .lap s x c = laws .ivp s x c := by
+    intro c hc
+    have := h c hc
+    cases c <;> try rfl
+    case Ind n1 n2 m l i0 coup =>
+      simp only [Cpt.noIC, Bool.and_eq_true] at this
+      cases i0 with
+      | some _ => simp at this
+      | none => simp [laws, mutualIC_none coup this.2]
+  have hk : ∀ k, lsum (cs.map (outflow .lap s x k)) = lsum (cs.map (outflow .ivp s x k)) := by
+    intro k; congr 1; apply List.map_congr_left; intro c hc; exact ho c hc k
+  simp only [Laws, hk]
+  constructor
+  · rintro ⟨a, b⟩; exact ⟨a, fun c hc p hp => b c hc p (by rwa [hl c hc])⟩
+  · rintro ⟨a, b⟩; exact ⟨a, fun c hc p hp => b c hc p (by rwa [← hl c hc])⟩
+
 /-! ### a series pair Z + V on an interior node, as one two-terminal element -/
 
 theorem lawsOf_pair (kind : Kind) (s : K) (c1 c2 : Cpt K) (x : Ix → K) :
